@@ -16,7 +16,7 @@ def run(ctx, rep):
         "shared mutable words: pdu_idx / frame_idx are only ever fetch_add-ed (and reset); slot states via SLOTFSM S1",
         "SubDeviceGroupHandle::{push,as_ref} (which manufacture &mut from &self) are called only from MainDevice::init",
         "every process-data cycle takes its own group's write lock before the first frame and keeps it to the return; the image is owned by value by its group",
-        "responses are routed per slot and validated against the caller's handle (C01 clauses 1,3 re-checked)",
+        "responses are routed per slot and validated against the caller's handle (C01 clauses 1,3 re-checked); the index lookup only matches slots awaiting a response, so another task's held or freed slot cannot shadow a live request after the 8-bit index wraps (C01 clause 4 re-checked)",
     ]
     rep.undecided += ["equivalence with a sequential run under all interleavings and latencies"]
     rep.trusted += ["rustc MIR/callee resolution", "tables/unsafe_impls.json justifications"]
@@ -32,6 +32,9 @@ def run(ctx, rep):
         from . import c01
 
         c01.handle_validation(prog, rep, tag)
+        # "no operation fails merely because of the others": a slot that another task still holds (or that was
+        # freed) must not shadow a live request when the shared 8-bit index wraps (C01 clause 4 re-checked)
+        slotfsm.s8(prog, rep, "C20", slotfsm.transitions(prog)[0], tag)
 
 
 def _classify(prog, ty, trait, memo, depth=0):
